@@ -85,6 +85,21 @@ pub fn run_case(case: &mut Case) {
         // multi-paragraph help texts with indented and fenced code blocks
         crate::emit::decorate(&mut spec.root, &mut rng);
     }
+    // an adjacent group inside a repeated adjacent group multiplies the (already cubic) cost of a
+    // long cluster of its first letter: such definitions get shorter long items
+    fn nested_adjacent(s: &Spec, inside: bool) -> bool {
+        match s {
+            Spec::Adj(xs) => inside || xs.iter().any(|x| nested_adjacent(x, true)),
+            Spec::Wrap { inner, .. } => nested_adjacent(inner, inside),
+            Spec::Seq(xs) | Spec::Alt(xs) => xs.iter().any(|x| nested_adjacent(x, inside)),
+            Spec::Cmd(c) => nested_adjacent(&c.opts.root, false),
+            _ => false,
+        }
+    }
+    if nested_adjacent(&spec.root, false) {
+        LONG_ITEM_MAX.with(|m| m.set(400));
+        case.rep.count("shape:adjacent-in-adjacent");
+    }
     let h = spec.hash64();
     case.rep.definition(h);
     let parser = build_options(&spec);
